@@ -43,6 +43,9 @@ CLAIMS = {
  "C10": ("abstract interpretation of the repo's AST with the inner model as an uninterpreted function symbol (wrapper(h.x) == h.wrapper(x) as exact terms; group-average definition; round trips)",
          "Decides for B_2 and four subgroups, all h in G, signatures incl. pseudo-types, that GroupAverage equals (1/|G|) sum_g g^-1.M(g.x) and commutes with every h for an uninterpreted inner model M (hence for every model), and returns the inner result when averaging is off; for Climate1D: from1d(to1d(x)) == x for every insertion order, extents and step counts, the longitude flip becomes the 1-D reflection, get_1d_signature agrees with to1d, and the wrapper commutes with the equator reflection for an uninterpreted 1-D model; ModelWrapper around the identity restores its input.",
          "Trusted: the operators handed to GroupAverage are closed under product (the caller's premise); D=2 groups only; the group action itself is C02.", "3/C10"),
+ "C06": ("abstract interpretation of the repo's AST on x and g.x over a polynomial element domain with symbolic parameters and a generic symbolic invariant filter bank (layer(g.x) == g.layer(x) as a polynomial identity)",
+         "Decides, as an identity of polynomials in pixels, weights, biases and filter seeds -- hence for every parameter value, initial or trained -- that ConvContract commutes with the generators of B_D (which implies all 8/48 elements) for signatures with unequal channels and pseudo-types, the five bias modes, TORUS/SAME/explicit padding, filter and image dilation, mixed torus flags, D=2,3, and with cyclic shifts on fully toroidal inputs.",
+         "Trusted: conv/einsum models; the supplied bank is group-invariant (the generated family is C03's subject); grids are cubic here (non-square transport is C01/C02); the configuration box is finite.", "3/C06"),
 }
 
 NA_REASON = "check not built yet in this session (build in progress); see DESIGN.md section 3 for the planned static rule"
